@@ -123,7 +123,7 @@ class Prop:
     pid = 'C16'
     props_file = 'Props/C16.v'
     extra_targets = ['Model/OpenSession.vo']   # composition used by the wire_* cases, not a dependency of Props/C16.v
-    required_theorems = ['negotiate_mirror', 'family_in_force_iff_both', 'flags_in_force_iff_both', 'graceful_restart_mirror', 'send_max_iff_addpath_tx', 'llgr_mirror', 'contains_eq_bit_prefix', 'contains_beyond_width', 'send_max_any_filter_refuted', 'llgr_all_entries_refuted', 'accept_iff_permitted', 'accept_only_if_text', 'session_fields_from_config', 'dynamic_peer_removed', 'dynamic_peers_have_connections', 'peer_group_inheritance', 'local_cap_from_config', 'admission_independent_of_group_order', 'overlapping_groups_order_dependent', 'stale_task_removes_live_dynamic_peer_refuted', 'update_keeps_dynamic', 'live_connection_keeps_record', 'stale_no_sessions_refuted', 'update_clearing_delete_refuted']
+    required_theorems = ['negotiate_mirror', 'family_in_force_iff_both', 'flags_in_force_iff_both', 'graceful_restart_mirror', 'send_max_iff_addpath_tx', 'llgr_mirror', 'contains_eq_bit_prefix', 'contains_beyond_width', 'send_max_any_filter_refuted', 'llgr_all_entries_refuted', 'accept_iff_permitted', 'accept_only_if_text', 'session_fields_from_config', 'dynamic_peer_removed', 'dynamic_peers_have_connections', 'peer_group_inheritance', 'local_cap_from_config', 'admission_independent_of_group_order', 'overlapping_groups_order_dependent', 'stale_task_removes_live_dynamic_peer_refuted', 'update_keeps_dynamic', 'live_connection_keeps_record', 'stale_no_sessions_refuted', 'update_clearing_delete_refuted', 'update_local_asn_as_configured']
     correspondence_name = ('Model/Negotiate.v vs packet/src/bgp.rs IpNet::contains, PeerCodec::negotiate (harness/hx-neg) and '
                            'daemon fsm.rs effective send-max, event/mod.rs negotiate_gr/negotiate_llgr (harness/daemon/event_hx.rs verif_neg_cases); '
                            'Model/Accept.v vs event/mod.rs accept_connection, Global::add_peer, PeerSession::run bookkeeping and event/peer.rs '
@@ -454,6 +454,14 @@ class Prop:
                     for new in (0, 1):
                         case('disconnect_race_%s_%s' % (nkind, sname), groups, statics,
                              pre + [('discrace', a1, old, new), ('disconnect', a1, new), ('disconnect', a1, 1 - new), ('connect', a1, 1)])
+        # UpdatePeer under a confederation: external, member and internal neighbours
+        for peer_as in (65001, 65009, 65000):
+            for nkind in ('dynamic', 'static'):
+                groups = [G(**{'as': peer_as, 'prefixes': [(4, [127, 0, 0, 0], 16)]})] if nkind == 'dynamic' else []
+                statics = [] if nkind == 'dynamic' else [dict(addr=a1, params=P(expected=peer_as), group=None)]
+                case('update_confederation_%s' % nkind, groups, statics,
+                     [('connect', a1, 1), ('update', a1, dict(same, asn=peer_as)), ('connect', a1, 1), ('disconnect', a1, 1)],
+                     confed=[65100, [65001, 65002]])
         # overlapping dynamic prefixes in two / three groups
         for hs in ((30, 90), (90, 30), (30, 90, 3)):
             case('overlapping_groups', [G(hold=h, prefixes=[(4, [127, 0, 0, 0], 8 + 4 * k)]) for k, h in enumerate(hs)], [], [('connect', a1, 1)])
@@ -835,7 +843,12 @@ class Prop:
                 u = arg
                 row = before.get(key)
                 if row is not None and int(u['rs']) == row['rs'] and int(u['rrc']) == row['rrc']:
-                    la = u['local_asn'] or c['asn']
+                    # the local AS the peer must see: as for a neighbour configured this way (confederation identifier
+                    # towards peers outside the confederation)
+                    own = u['local_asn'] or c['asn']
+                    la = own
+                    if c['confed'] is not None and u['asn'] != own and u['asn'] not in c['confed'][1]:
+                        la = c['confed'][0]
                     hold = u['hold'] or 180
                     caps = self._expected_caps(addr, la, [], None, None)
                     new = dict(row); new.update(expected=u['asn'], local_asn=la, passive=int(u['passive']), hold=hold, caps=caps,
@@ -916,7 +929,7 @@ class Prop:
             if key not in exp: dyn.pop(key, None)
             if exp != after:
                 diff = sorted(set(exp) ^ set(after)) or [kk for kk in exp if exp[kk] != after[kk]]
-                return 'op %d (%s): neighbour table is not what the operation should leave (%s)' % (k, kind, diff[:2])
+                return 'op %d (%s): neighbour table is not what the operation should leave (%s)' % (k, o[0], diff[:2])
             rows = after
         return None
 
